@@ -1265,14 +1265,21 @@ class PhasedVcfWriter(VcfAugmenter):
         return genotype_changes
 
     def _remove_existing_phasing(self, record: VariantRecord, samples: Iterable[str]):
-        if self.tag == "PS":
-            for sample in samples:
-                call = record.samples[sample]
-                if "GT" not in call:
-                    continue
-                call.phased = False
-                if call["GT"] is not None and all(allele is not None for allele in call["GT"]):
-                    call["GT"] = sorted(call["GT"])
+        """
+        Remove phase information of the given samples in either encoding (phased GT or HP),
+        whichever tag is going to be written, so that old and new phasing are never mixed.
+        """
+        has_hp = "HP" in record.format
+        for sample in samples:
+            call = record.samples[sample]
+            if has_hp:
+                # explicit missing value (assigning None would write an empty string)
+                call["HP"] = "."
+            if "GT" not in call:
+                continue
+            call.phased = False
+            if call["GT"] is not None and all(allele is not None for allele in call["GT"]):
+                call["GT"] = sorted(call["GT"])
 
 
 def genotype_code(gt: Optional[Tuple[Optional[int], ...]]) -> Genotype:
